@@ -148,7 +148,7 @@ example : LinCodeRelation (toyPP true) (.uni 5)
       (tensorUni (5 : K) 2 2).1)
     (honestProof (toyPP true) [1, 2, 3] toyE 4 (tensorUni (5 : K) 2 2).2 ⟨[7, 9], [2, 0, 3]⟩)
     ⟨[7, 9], [2, 0, 3]⟩ :=
-  lincode_honest_in_relation (toyPP true) (.uni 5) [1, 2, 3] toyE 4 (toy_encodes _ _) _ _ _ rfl
+  lincode_honest_in_relation (toyPP true) (.uni 5) [1, 2, 3] toyE 4 (toy_encodes _ _ (by decide)) _ _ _ rfl
     (by decide)
 example : toyRun true (.uni 5) [1, 2, 3] ⟨[7, 9], [2, 0, 3]⟩ (evalPoly [1, 2, 3] 5) = .ok true := by
   decide
